@@ -590,7 +590,7 @@ static Boolean DecodePseudo(void) {
     LongInt Size;
 
     if (Memo("SINGLE")) {
-        if (ChkArgCnt(1, ArgCntMax)) {
+        if (ChkArgCnt(1, ArgCntMax) && SetMaxCodeLenForArgs()) {
             OK = True;
             for (z = 0; z < ArgCnt; z++) {
                 double Float = EvalStrFloatExpression(&ArgStr[z + 1], Float32, &OK);
@@ -608,7 +608,7 @@ static Boolean DecodePseudo(void) {
     }
 
     if (Memo("DOUBLE")) {
-        if (ChkArgCnt(1, ArgCntMax)) {
+        if (ChkArgCnt(1, ArgCntMax) && SetMaxCodeLenForArgs()) {
             int    z2;
             double Float;
 
@@ -634,7 +634,7 @@ static Boolean DecodePseudo(void) {
     }
 
     if (Memo("DATA")) {
-        if (ChkArgCnt(1, ArgCntMax)) {
+        if (ChkArgCnt(1, ArgCntMax) && SetMaxCodeLenForArgs()) {
             TempResult t;
 
             as_tempres_ini(&t);
